@@ -332,12 +332,14 @@ def element_space(rng, kind, tier, with_nan):
         if with_nan:
             lib += [[0, 0, U.NAN, 1, 3, 4], [U.NAN, U.NAN], [0, 0, 3, 4, 3, U.NAN, 0, 0]]
         out = [list(t) for n in range(0, 4) for t in itertools.product(lib, repeat=n)]
+        out += [[[]] * k + [l] for k in (4, 6, 9) for l in lib[1:]]     # many empty parts first
         return out
     rl = U.ring_library(with_nan)
     if kind == 'polygon':
         out = [list(t) for n in range(0, 3) for t in itertools.product(rl, repeat=n)]
         three = [list(t) for t in itertools.product(rl, repeat=3)]
         out += rng.sample(three, 500) if quick else three
+        out += [[[]] * k + [r] for k in (4, 8, 11) for r in rl[1:]]     # many empty rings first
         return out
     if kind == 'multipolygon':
         srl = [rl[0], rl[1], rl[5], rl[8], rl[9], rl[11], rl[12]] + (rl[19:21] if with_nan else [])
@@ -365,6 +367,10 @@ CORPUS = [
     ('multipolygon', 'float64', [[[[0, 0, 1, 0, 1, 1, 0, 0]], []]], []),
     ('multipolygon', 'float64', [[], [[]], [[[]]], None], []),
     ('polygon', 'int16', [[[0, 0, 30000, 0, 30000, 30000, 0, 0]]], []),   # no int16 wrap-around
+    # more rings than coordinate values before the last ring (scalar buffer_inner_offsets)
+    ('multiline', 'float64', [[[], [], [], [], [0, 0, 3, 4]]], []),
+    ('polygon', 'float64', [[[], [], [], [], [], [], [], [], [0, 0, 3, 0, 3, 4, 0, 0]]], []),
+    ('multipolygon', 'float64', [[[[], [], [], [], [], [], [], [], [0, 0, 3, 0, 3, 4, 0, 0]]]], []),
 ]
 
 
